@@ -4,6 +4,7 @@ import Infretis.Lemmas.RepexC03RRestore
 import Infretis.Lemmas.RepexC05Family
 import Infretis.Lemmas.PermSort
 import Infretis.Lemmas.RepexC05Chain
+import Infretis.Lemmas.RepexC05Progress
 /-!
 # C05 — the sampler never stalls: a job can always be drawn, sorting terminates
 
@@ -1202,6 +1203,120 @@ theorem fresh_start_from_order_sequences (c : CvCfg) (n workers tsteps cstep tra
 example : loadPathsCv exCfg3 exBlank exCvPaths = .ok
     (match loadPathsCv exCfg3 exBlank exCvPaths with | .ok s => s | .error _ => exBlank)
     ∧ noJumpCfg exCfg3 [-1, 1, -1] = true ∧ noJumpCfg exCfg3 [-1, 1, 3, -1] = true := by
+  decide +kernel
+
+/-! ## H. Audit repair: what "the step returns" is proved, and what is assumed
+
+Every step theorem of sections A–E is stated for a step that RETURNS (`sysStep … = .ok y'`, `preSort … = .ok`): they say
+what holds after it, and that `sort_trajstate` then returns too.  `EvOk` (the family hypothesis) does NOT make the step
+return: a family vector may be zero in its own ensemble, and `add_traj` then raises
+(`family_outcome_own_zero_counterexample`).  This section proves the missing half for the assertions the property names
+— `add_traj`'s `valid[ens] != 0` and `unlock`'s lock assertion hold for every picked ensemble (`treat_loop_returns`) —
+and composes it with `sort_terminates` (`treat_output_returns_partial`).  Still a hypothesis there: the `traj_data`
+look-ups of "record weights" and `write_to_pathens` (no KeyError), which none of this package's invariants covers. -/
+
+/-- **`EvOk` alone does not make the step return**: `(0,0,0)` is a family vector for `[0+]` (a staircase of height 0),
+    but the accepted step of the example with this vector ends in `add_traj`'s assertion. -/
+theorem family_outcome_own_zero_counterexample :
+    VecOk 4 0 [0, 0, 0] ∧
+    sysStep (exAt 3) (.step 0 .acc [[1], [0, 0, 0]] { t := 0, e := 0, coin := false }) = .error .assert := by
+  refine ⟨⟨fun h => absurd h (by omega), fun _ => ⟨0, ?_, by decide⟩⟩, by decide +kernel⟩
+  have : padN 4 0 [0, 0, 0] = [0, 0, 0, 0] := by unfold padN; rfl
+  rw [this]; unfold IsPlusRow; decide +kernel
+
+/-- **The per-ensemble loop of `treat_output` returns** (any number of workers, fresh start or restart): for every
+    reachable state, every job in flight `k`, accepted or rejected, with one new weight vector per picked ensemble, each
+    in the family (`EvOk`) and NON-ZERO IN ITS OWN ENSEMBLE: for every picked ensemble the pops of `locked`, the
+    assertion `valid[ens] != 0` of `add_traj`, its row assignment and the lock assertion of `unlock` pass.  (Rejected:
+    the old path goes back; its recorded weights are non-zero there because the pick had positive probability.) -/
+theorem treat_loop_returns {y : Sys} (hr : ReachableR y) (k : Nat) (status : Status) (newW : List (List Rat))
+    (o : PickOutcome) (hev : EvOk y (.step k status newW o)) (job : Job) (hjob : y.jobs[k]? = some job)
+    (hlen : status = .acc → newW.length = job.picked.length)
+    (hown : status = .acc → ∀ pw ∈ job.picked.zip newW,
+      ∃ x, (padN y.s.n pw.1.ens pw.2)[(pw.1.ens + 1).toNat]? = some x ∧ x ≠ 0) :
+    ∃ r, treatOutput.perEns status (loop y.s).1 (loop y.s).1.trajNum
+      (job.picked.zip (if status = .acc then newW else job.picked.map (fun _ => []))) = .ok r := by
+  have hi := reach_inv5R hr
+  obtain ⟨hce, hfe, htn, _⟩ := loop_frame y.s
+  have hperm := held_perm_erase y.jobs k job hjob
+  have hc1 : CoreR (loop y.s).1 (heldJob job ++ held (y.jobs.eraseIdx k)) (loop y.s).1.trajNum := by
+    rw [htn]
+    exact (hi.inv.core.congr hce).perm hperm
+  have hf1 : Fam (loop y.s).1 (loop y.s).1.trajNum := by rw [htn]; exact hi.fam.congr hfe
+  have hjmem : job ∈ y.jobs := List.mem_of_getElem? hjob
+  exact perEns_returns_inv job status newW hc1 hf1 (hi.inv.jobs job hjmem).ensGe hlen
+    (fun ha => by rw [hce.n]; exact hev ha job hjob) (fun ha => by rw [hce.n]; exact hown ha)
+
+/-- the accepted step of the example: both new vectors are non-zero in their own ensemble -/
+example : Reachable (exAt 3) ∧ EvOk (exAt 3) (.step 0 .acc [[1], [1, 1, 0]] { t := 0, e := 0, coin := false })
+    ∧ (∀ job, (exAt 3).jobs[0]? = some job → ([[1], [1, 1, 0]] : List (List Rat)).length = job.picked.length ∧
+        ∀ pw ∈ job.picked.zip [[1], [1, 1, 0]],
+          ∃ x, (padN (exAt 3).s.n pw.1.ens pw.2)[(pw.1.ens + 1).toNat]? = some x ∧ x ≠ 0) := by
+  refine ⟨ex_reachable 3 (by decide), ex_evOk3, ?_⟩
+  intro job hjob
+  have hens : (exAt 3).jobs.map (fun j => j.picked.map (·.ens)) = [[-1, 0], [1]] := by decide +kernel
+  have hn : (exAt 3).s.n = 4 := by decide +kernel
+  have hj : job.picked.map (·.ens) = [-1, 0] := by
+    have := congrArg (fun l => l[0]?) hens
+    simp only [List.getElem?_map, hjob, Option.map_some, List.getElem?_cons_zero, Option.some.injEq] at this
+    exact this
+  rw [hn]
+  obtain ⟨p1, p2, hp⟩ : ∃ p1 p2, job.picked = [p1, p2] := by
+    match hpk : job.picked with
+    | [p1, p2] => exact ⟨p1, p2, rfl⟩
+    | [] => rw [hpk] at hj; simp at hj
+    | [_] => rw [hpk] at hj; simp at hj
+    | _ :: _ :: _ :: _ => rw [hpk] at hj; simp at hj
+  rw [hp] at hj ⊢
+  simp only [List.map_cons, List.map_nil, List.cons.injEq, and_true] at hj
+  refine ⟨rfl, ?_⟩
+  intro pw hpw
+  simp only [List.zip_cons_cons, List.zip_nil_right, List.mem_cons, List.not_mem_nil, or_false] at hpw
+  rcases hpw with rfl | rfl
+  · show ∃ x, (padN 4 p1.ens [1])[(p1.ens + 1).toNat]? = some x ∧ x ≠ 0
+    rw [hj.1]; exact ⟨1, by decide +kernel, by decide +kernel⟩
+  · show ∃ x, (padN 4 p2.ens [1, 1, 0])[(p2.ens + 1).toNat]? = some x ∧ x ≠ 0
+    rw [hj.2]; exact ⟨1, by decide +kernel, by decide +kernel⟩
+
+/-- **`treat_output` returns, given the `traj_data` look-ups** (`_partial`: the guard `hbook` is exactly what is not proved —
+    after the per-ensemble loop, "record weights" finds the fractions of every idle live path and `write_to_pathens`
+    finds fractions and weights of the replaced paths, i.e. no KeyError).  Under it, for every reachable state, every
+    job in flight and every family outcome that is non-zero in its own ensemble, the whole `treat_output` — loop,
+    record weights, data rows, `sort_trajstate` with the scheduler's fuel — returns. -/
+theorem treat_output_returns_partial {y : Sys} (hr : ReachableR y) (k : Nat) (status : Status) (newW : List (List Rat))
+    (o : PickOutcome) (hev : EvOk y (.step k status newW o)) (job : Job) (hjob : y.jobs[k]? = some job)
+    (hlen : status = .acc → newW.length = job.picked.length)
+    (hown : status = .acc → ∀ pw ∈ job.picked.zip newW,
+      ∃ x, (padN y.s.n pw.1.ens pw.2)[(pw.1.ens + 1).toNat]? = some x ∧ x ≠ 0)
+    (hbook : ∀ s1 tn pns, treatOutput.perEns status (loop y.s).1 (loop y.s).1.trajNum
+        (job.picked.zip (if status = .acc then newW else job.picked.map (fun _ => []))) = .ok (s1, tn, pns) →
+      ∃ s2 s3, recordFrac s1 = .ok s2 ∧ (if status = .acc then writeRows s2 job.pnumOld else .ok s2) = .ok s3) :
+    ∃ r, treatOutput (loop y.s).1 job status newW (sortFuel (loop y.s).1) = .ok r := by
+  obtain ⟨⟨s1, tn, pns⟩, hloop⟩ := treat_loop_returns hr k status newW o hev job hjob hlen hown
+  obtain ⟨s2, s3, hrec, hrows⟩ := hbook s1 tn pns hloop
+  have hwl : (if status = .acc then newW else job.picked.map (fun _ => ([] : List Rat))).length = job.picked.length := by
+    split
+    · rename_i ha; exact hlen ha
+    · simp
+  have hpre : preSort (loop y.s).1 job status newW = .ok (s3, tn, pns) := by
+    unfold preSort
+    simp only []
+    rw [if_neg (by rw [hwl]; simp), hloop]
+    simp only [hrec, hrows]
+  obtain ⟨s4, it, hsort⟩ := sort_terminates_restart hr k status newW o hev job hjob s3 tn pns hpre
+  rw [treatOutput_eq, hpre]
+  simp only [hsort]
+  exact ⟨_, rfl⟩
+
+/-- the guard is met on the example: the rejected step 4 and the accepted step 3 return as a whole -/
+example : (match (exAt 4).jobs[0]? with
+      | some job => (match treatOutput (loop (exAt 4).s).1 job .rej [] (sortFuel (loop (exAt 4).s).1) with
+                     | .ok _ => true | .error _ => false)
+      | none => false) = true
+    ∧ (match (exAt 3).jobs[0]? with
+      | some job => (match treatOutput (loop (exAt 3).s).1 job .acc [[1], [1, 1, 0]] (sortFuel (loop (exAt 3).s).1) with
+                     | .ok _ => true | .error _ => false)
+      | none => false) = true := by
   decide +kernel
 
 end Infretis.C05
